@@ -1,7 +1,7 @@
 (** * C15 - What is POSTed is what is GET back; malformed payloads are rejected, not fatal.
     Only statements, each closed by [exact <lemma>] (or a 2-3 line wrapper), with [Print Assumptions]. *)
 From Coq Require Import List String NArith Bool Lia.
-From DH Require Import Model.Parser Proofs.ParserProofs Check.C15Check Proofs.C15CheckProofs.
+From DH Require Import Model.Parser Proofs.ParserProofs Proofs.ParserFuel Proofs.ParserPanic Check.C15Check Proofs.C15CheckProofs.
 Import ListNotations.
 Open Scope string_scope.
 
@@ -39,12 +39,42 @@ Print Assumptions C15_stream_is_spec.
     "[" context ("," entity)* ", {"id":"@continuation","token":tok}]" - hands the callback exactly
     the entities, with null properties dropped, then the continuation element; outcome Ok; the
     parser's namespace context is the serialised one. *)
-Theorem C15_roundtrip : forall v ctx es tok, wf_ctx ctx -> Forall (fun ei => wf_ent ctx (fst ei)) es ->
-  exists n, forall fuel, (n <= fuel)%nat ->
-    parse_stream v fuel true (ser_stream ctx es tok)
-    = ((map (fun ei => clean_ent (fst ei)) es ++ [cont_ent tok])%list, OOk, ctx).
-Proof. intros v ctx es tok H. exact (stream_roundtrip v ctx H es tok). Qed.
+Theorem C15_roundtrip : forall v ctx es tok fuel, wf_ctx ctx -> Forall (fun ei => wf_ent ctx (fst ei)) es ->
+  (List.length (ser_stream ctx es tok) < fuel)%nat ->
+  parse_stream v fuel true (ser_stream ctx es tok)
+  = ((map (fun ei => clean_ent (fst ei)) es ++ [cont_ent tok])%list, OOk, ctx).
+Proof. exact stream_roundtrip_fuel. Qed.
 Print Assumptions C15_roundtrip.
+(** in particular with the fuel the check uses, [S (length tokens)] *)
+Theorem C15_roundtrip_check_fuel : forall v ctx es tok, wf_ctx ctx -> Forall (fun ei => wf_ent ctx (fst ei)) es ->
+  parse_stream v (S (List.length (ser_stream ctx es tok))) true (ser_stream ctx es tok)
+  = ((map (fun ei => clean_ent (fst ei)) es ++ [cont_ent tok])%list, OOk, ctx).
+Proof. intros v ctx es tok Hc He. apply stream_roundtrip_fuel; [exact Hc|exact He|lia]. Qed.
+Print Assumptions C15_roundtrip_check_fuel.
+
+(** Fuel: every parser function consumes at least one token per unit of fuel it spends (two units
+    per token inside the generic context value), so with more fuel than tokens - for EVERY variant
+    and EVERY token list - the result is never the artefact [Fuel] and no longer depends on the fuel. *)
+Theorem C15_fuel_enough : forall v fuel eof ts, (List.length ts < fuel)%nat ->
+  snd (fst (parse_stream v fuel eof ts)) <> OFuel /\ parse_txn v fuel ts <> Fuel.
+Proof. intros v fuel eof ts H. split; [now apply parse_stream_enough | now apply parse_txn_enough]. Qed.
+Print Assumptions C15_fuel_enough.
+Theorem C15_fuel_independent : forall v fuel k eof ts, (List.length ts < fuel)%nat ->
+  parse_stream v (fuel + k) eof ts = parse_stream v fuel eof ts /\ parse_txn v (fuel + k) ts = parse_txn v fuel ts.
+Proof. intros v fuel k eof ts H. split; [now apply parse_stream_stable | now apply parse_txn_stable]. Qed.
+Print Assumptions C15_fuel_independent.
+Theorem C15_consumes_a_token : forall v ns fuel,
+  (forall e isc ts e' rest, parse_entity v ns fuel e isc ts = Ok (e', rest) -> (List.length rest < List.length ts)%nat) /\
+  (forall acc ts ps rest, parse_props v ns fuel acc ts = Ok (ps, rest) -> (List.length rest < List.length ts)%nat) /\
+  (forall ts x rest, parse_value v ns fuel ts = Ok (x, rest) -> (List.length rest < List.length ts)%nat) /\
+  (forall acc ts l rest, parse_array v ns fuel acc ts = Ok (l, rest) -> (List.length rest < List.length ts)%nat).
+Proof. exact mutual_shorter. Qed.
+Print Assumptions C15_consumes_a_token.
+(** no prediction the correspondence evaluator computes is the artefact (outcome code 7) *)
+Theorem C15_check_fuel_enough : forall v ts eof,
+  fst (fst (run_stream v ts eof)) <> 7%N /\ fst (fst (run_txn v ts)) <> 7%N.
+Proof. intros v ts eof. split; [apply run_stream_no_fuel | apply run_txn_no_fuel]. Qed.
+Print Assumptions C15_check_fuel_enough.
 
 (** the same for a single value: every array body and every (nested) entity body parses back *)
 Theorem C15_value_roundtrip : forall v ctx, wf_ctx ctx -> forall x, wf_val ctx x ->
@@ -76,6 +106,34 @@ Theorem C15_cache_transparent : forall ns c k, cache_ok ns c ->
   fst (resolve_cached ns c k) = resolve ns k /\ cache_ok ns (snd (resolve_cached ns c k)).
 Proof. exact cache_transparent. Qed.
 Print Assumptions C15_cache_transparent.
+
+(** Where the pinned parser panics, exactly.  [with_chk v] = v with the type assertions checked.
+    On EVERY input the checked parser returns what the unchecked one returns except that a panic
+    becomes an error: same entities handed to the callback before it, same namespaces.  Hence the
+    pinned tree panics on precisely the inputs on which it differs from its types-checked version. *)
+Theorem C15_checked_simulates : forall v fuel eof ts,
+  parse_stream (with_chk v) fuel eof ts = demote_s (parse_stream v fuel eof ts)
+  /\ parse_txn (with_chk v) fuel ts = demote (parse_txn v fuel ts).
+Proof. intros. split; [apply parse_stream_sim | apply parse_txn_sim]. Qed.
+Print Assumptions C15_checked_simulates.
+Theorem C15_panics_iff : forall v fuel eof ts,
+  (snd (fst (parse_stream v fuel eof ts)) = OPanic <->
+   parse_stream (with_chk v) fuel eof ts <> parse_stream v fuel eof ts) /\
+  (parse_txn v fuel ts = Panic <-> parse_txn (with_chk v) fuel ts <> parse_txn v fuel ts).
+Proof. intros. split; [apply stream_panics_iff | apply txn_panics_iff]. Qed.
+Print Assumptions C15_panics_iff.
+(** the context classes in closed form, and the three assertion sites of parseEntity *)
+Theorem C15_context_panic_iff : forall ctx,
+  namespaces_of current ctx = Panic <->
+  match lookup "namespaces" ctx with Some (JObj l) => all_strings l = None | _ => True end.
+Proof. exact namespaces_panic_iff. Qed.
+Print Assumptions C15_context_panic_iff.
+Theorem C15_entity_assertion_sites : forall ns f e isc t rest,
+  (is_str t = false -> parse_entity current ns (S f) e isc (TStr "id" :: t :: rest) = Panic) /\
+  (is_num t = false -> parse_entity current ns (S f) e isc (TStr "recorded" :: t :: rest) = Panic) /\
+  (is_bool t = false -> parse_entity current ns (S f) e isc (TStr "deleted" :: t :: rest) = Panic).
+Proof. exact entity_assertion_sites. Qed.
+Print Assumptions C15_entity_assertion_sites.
 
 (** Refutations on the pinned tree: one witness per panic class (F15a) *)
 Theorem C15_refuted_panic_deleted_string : exists ts, snd (fst (parse_stream current 40 true ts)) = OPanic.
@@ -150,3 +208,8 @@ Example C15_nonvacuous_httpbin :
   resolve [("httpbin", "http://ex.org/a/"); ("https-api", "http://ex.org/b#")] "https-api:reports/2024"
   = Some (NQ "http://ex.org/b#" "reports/2024").
 Proof. vm_compute. reflexivity. Qed.
+Example C15_nonvacuous_fuel :
+  List.length (ser_stream ex_ctx [(ex_ent, 7%N)] "MQ==") = 66%nat
+  /\ parse_stream current 67 true (ser_stream ex_ctx [(ex_ent, 7%N)] "MQ==")
+     = ([clean_ent ex_ent; cont_ent "MQ=="], OOk, ex_ctx).
+Proof. vm_compute. split; reflexivity. Qed.
